@@ -195,6 +195,12 @@ def finalize(prop, tier, seed, level, rule, report, t0, assumptions,
             known_sigs[k["signature"]] = k
     replay_dir = os.path.join(VERIF, "replays", prop)
     os.makedirs(replay_dir, exist_ok=True)
+    for old in os.listdir(replay_dir):
+        # witnesses belong to the run that produced them
+        try:
+            os.unlink(os.path.join(replay_dir, old))
+        except OSError:
+            pass
     unknown = 0
     known_seen = {}
     printed = set()
